@@ -109,7 +109,7 @@ func (r *result) inconclusive(s string) {
 
 func (r *result) write(path string, start time.Time) {
 	r.mu.Lock()
-	r.Fingerprints = r.Fingerprints[:0]
+	r.Fingerprints = make([]uint64, 0, len(r.fps))
 	for fp := range r.fps {
 		r.Fingerprints = append(r.Fingerprints, fp)
 	}
